@@ -150,7 +150,7 @@ fn find_slice_files(paths: &[String], are_source_files: bool, diagnostics: &mut 
             continue;
         }
 
-        slice_paths.extend(find_slice_files_in_path(path_buf, diagnostics));
+        slice_paths.extend(find_slice_files_in_path(path_buf, &mut Vec::new(), diagnostics));
     }
 
     slice_paths
@@ -171,7 +171,12 @@ fn find_slice_files(paths: &[String], are_source_files: bool, diagnostics: &mut 
         .collect()
 }
 
-fn find_slice_files_in_path(path: PathBuf, diagnostics: &mut Diagnostics) -> Vec<PathBuf> {
+/// `ancestors` holds the canonical paths of the directories this walk is currently inside of.
+fn find_slice_files_in_path(
+    path: PathBuf,
+    ancestors: &mut Vec<PathBuf>,
+    diagnostics: &mut Diagnostics,
+) -> Vec<PathBuf> {
     let mut paths = Vec::new();
 
     // Query what this path refers to. We don't use `Path::is_dir` & `Path::is_file` here, because they treat every
@@ -192,8 +197,25 @@ fn find_slice_files_in_path(path: PathBuf, diagnostics: &mut Diagnostics) -> Vec
     };
 
     if metadata.is_dir() {
+        // A symbolic link can lead back to a directory we're already inside of. Walking into it again would find the
+        // same files again (and again, until the operating system refuses to follow any more links), so we skip it.
+        let canonical_path = match path.canonicalize() {
+            Ok(canonical_path) if ancestors.contains(&canonical_path) => return paths,
+            Ok(canonical_path) => canonical_path,
+            Err(error) => {
+                Diagnostic::new(Error::IO {
+                    action: "read",
+                    path: path.display().to_string(),
+                    error,
+                })
+                .push_into(diagnostics);
+                return paths;
+            }
+        };
+
         // Recurse into the directory.
-        match find_slice_files_in_directory(&path, diagnostics) {
+        ancestors.push(canonical_path);
+        match find_slice_files_in_directory(&path, ancestors, diagnostics) {
             Ok(child_paths) => paths.extend(child_paths),
             Err(error) => Diagnostic::new(Error::IO {
                 action: "read",
@@ -202,6 +224,7 @@ fn find_slice_files_in_path(path: PathBuf, diagnostics: &mut Diagnostics) -> Vec
             })
             .push_into(diagnostics),
         }
+        ancestors.pop();
     } else if metadata.is_file() && is_slice_file(&path) {
         // Add the file to the list of paths.
         paths.push(path);
@@ -211,14 +234,18 @@ fn find_slice_files_in_path(path: PathBuf, diagnostics: &mut Diagnostics) -> Vec
     paths
 }
 
-fn find_slice_files_in_directory(path: &Path, diagnostics: &mut Diagnostics) -> io::Result<Vec<PathBuf>> {
+fn find_slice_files_in_directory(
+    path: &Path,
+    ancestors: &mut Vec<PathBuf>,
+    diagnostics: &mut Diagnostics,
+) -> io::Result<Vec<PathBuf>> {
     let mut paths = Vec::new();
     let dir = path.read_dir()?;
 
     // Iterate though the directory and recurse into any subdirectories.
     for child in dir {
         match child {
-            Ok(child) => paths.extend(find_slice_files_in_path(child.path(), diagnostics)),
+            Ok(child) => paths.extend(find_slice_files_in_path(child.path(), ancestors, diagnostics)),
             Err(error) => {
                 // If we cannot read the directory entry, report an error and continue.
                 Diagnostic::new(Error::IO {
